@@ -46,6 +46,13 @@ def chunks(seq, size):
         yield seq[i:i + size]
 
 
+def nproc_for(jobs):
+    """worker processes for a batch: a process costs ~10 CPU-s to start (imports + JIT), a numpy job ~1.5 ms,
+    a dask job ~0.3 s."""
+    cost = sum(200 if j.get("backend") == "dask" else 1 for j in jobs)
+    return max(1, min(16, (cost + 1499) // 1500))
+
+
 def strip(case):
     return {k: v for k, v in case.items() if k not in ("job", "tag", "error")}
 
@@ -59,7 +66,7 @@ class Failures:
         self.by_key = {}
 
     def add(self, key, clause, case, what):
-        size = (case.get("n", 0), len(json.dumps(case.get("job", {}))))
+        size = (case.get("dim", 0), case.get("n", 0), len(json.dumps(case.get("job", {}))))
         self.by_key.setdefault(key, []).append((size, clause, case, what))
 
     def report(self):
@@ -69,9 +76,10 @@ class Failures:
             for _, cl, _, _ in lst:
                 clauses[cl] = clauses.get(cl, 0) + 1
             self.ctx.extra.setdefault("rejected_by_key", {})[key] = {"cases": len(lst), "clauses": clauses}
+            top = dict(sorted(clauses.items(), key=lambda kv: -kv[1])[:4])
             for size, cl, case, what in lst[:self.per_key]:
-                self.ctx.violation(key, cl, case["job"], "%s [%d cases of this key rejected; clauses %s]"
-                                   % (what, len(lst), clauses))
+                self.ctx.violation(key, cl, case["job"], "%s [%d cases of this key rejected; most frequent clauses %s]"
+                                   % (what, len(lst), top))
             if key in self.ctx.known:
                 # known finding: count every hit (violation() counted per_key of them)
                 self.ctx.known_hits[key] = len(lst)
